@@ -81,6 +81,8 @@ def items(tier: str, seed: int) -> list[Any]:
     cap = 3000 if quick else 40000
 
     def add(frames: list[tuple[str, int]], pname: str, seg: Any, b: int = bound, **kw: Any) -> None:
+        if seg == "bytes":
+            b = min(b, 1)  # one choice point per byte: bound 2 would square an already long menu
         d = {"proto": "doip", "frames": frames, "program": PROGRAMS[pname] if pname else [], "seg": seg}
         d.update(kw)
         out.append((d, b, cap))
@@ -109,7 +111,7 @@ def items(tier: str, seed: int) -> list[Any]:
                 if n and n <= 2 and not (quick and n == 2):
                     segs.append("bytes")
                 for seg in segs:
-                    add(fr, pname, seg)
+                    add(fr, pname, seg, b=bound if n <= 2 else 1)
                 if n == 1 or (n == 2 and pname in ("wr", "r") and not quick):
                     L = stream_len(fr, PROGRAMS[pname])
                     for k in range(1, L):
@@ -149,4 +151,5 @@ def finish(merged: Result, tier: str) -> dict[str, Any]:
         raise Broken("no conformance replay ran")
     if c.get("conformance_disagreements") and not merged.violations:
         raise Broken(f"stream model disagrees with real sockets: {merged.notes.get('conformance_disagreement_samples', [])[:1]}")
-    return {"conformance_replays": c.get("conformance_replays", 0), "exhaustive": capped == 0, "capped_scenarios": capped, "deviation_bound": 1 if tier == "quick" else 2}
+    return {"conformance_replays": c.get("conformance_replays", 0), "exhaustive": capped == 0, "capped_scenarios": capped,
+            "deviation_bound": 1 if tier == "quick" else "2 for scripts of <= 2 frames, 1 for 3-frame scripts"}
